@@ -545,3 +545,46 @@ def r10_5(cx):
 
 
 from rules.rabinkarp import r10_6  # noqa: E402,F401
+
+
+@only(PERF)
+def r05_7(cx):
+    """A byte-set builder may stop recording only at a count its build() rejects: otherwise build() installs a prefilter for
+    a set that silently lacks bytes (candidates are skipped, matches missed)."""
+    for nm, rec_pat in (('StartBytesBuilder', r'StartBytesBuilder::add_one_byte$'), ('RareBytesBuilder', r'RareBytesBuilder::(set_offset|add_rare_byte)$')):
+        a = cx.body('util::prefilter::%s::add' % nm)
+        imp = cx.body('util::prefilter::%s::build::imp' % nm)
+        arows = summarize(cx.facts, a)
+        brows = summarize(cx.facts, imp)
+        BY = cstr(param_at(a, 2))
+        why = None
+        who = cstr(param_at(imp, 1))
+
+        def rejects(cnt, avail):
+            at_b = by_cstr({'%s.count' % who: cnt, '%s.available' % who: avail})
+            selb = [r for r in brows if r.end != 'diverge' and row_consistent(r, at_b)]
+            return bool(selb) and all(is_agg(r.ret, r'Option$', 'None') and not any(e[0] == 'loop' for e in r.effects) and not r.calls(r'Arc::new$') for r in selb)
+        for c in range(0, 7):
+            at_a = by_cstr({'self.count': c, 'self.available': 1, 'core::slice::len(%s)' % BY: 5,
+                            'discr(core::slice::first(%s))' % BY: 1, 'core::slice::is_empty(%s)' % BY: 0})
+            sel = [r for r in arows if r.end != 'diverge' and row_consistent(r, at_a)]
+            if not sel:
+                why = 'no path of add() for count = %d' % c
+                break
+            for r in sel:
+                if r.calls(rec_pat) or any(e[0] == 'loop' for e in r.effects):
+                    continue
+                # this path drops the pattern's bytes: the state it leaves must be one build() rejects
+                avail = 1
+                for pl, v in r.stores():
+                    if cstr(pl) == 'self.available':
+                        try:
+                            avail = teval(v, at_a)
+                        except (Unsupported, EvalPanic):
+                            avail = 1
+                if not rejects(c, avail):
+                    why = 'at count = %d add() no longer records the pattern\'s bytes, but build() still accepts the state it leaves: the prefilter is built from an incomplete byte set' % c
+                    break
+            if why:
+                break
+        cx.report('R05.7', a, 'count-cap', why is None, '%s::add stops recording only at counts that build() rejects (tabulated for counts 0..6)' % nm if why is None else '%s: %s' % (nm, why))
